@@ -229,7 +229,7 @@ def install():
 def gen_cases(tier, seed):
     rng = np.random.default_rng([seed, 17])
     n = 150 if tier == "quick" else 3000
-    kinds = ["iform", "isorm", "ds", "convex", "star", "star", "iform-normal", "lattice", "rectilinear"]
+    kinds = ["iform", "isorm", "ds", "convex", "star", "star", "iform-normal", "lattice", "rectilinear", "star-long", "iform-long"]
     cases = []
     for i in range(n):
         cases.append(
@@ -255,6 +255,11 @@ def _polygon(case, rng):
     from virocon import DirectSamplingContour, IFORMContour, ISORMContour
 
     shp = case["shape"]
+    if shp == "iform-long":
+        shp = "iform"
+        long_n = int(rng.choice([4097, 5000, 8200, 9000]))
+    else:
+        long_n = None
     if shp in ("iform", "isorm", "ds", "iform-normal"):
         fams = ["weibull", "lognormal", "expweib", "gengamma", "lnnf"]
         if shp == "iform-normal":
@@ -270,7 +275,7 @@ def _polygon(case, rng):
             elif shp == "isorm":
                 P = ISORMContour(model, alpha, n_points=int(rng.choice([20, 60, 180]))).coordinates
             else:
-                P = IFORMContour(model, alpha, n_points=int(rng.choice([20, 60, 180]))).coordinates
+                P = IFORMContour(model, alpha, n_points=long_n or int(rng.choice([20, 60, 180]))).coordinates
         P = np.asarray(P, float)
     elif shp == "convex":
         k = int(rng.integers(5, 40))
@@ -295,7 +300,8 @@ def _polygon(case, rng):
         pts += [(xs_[-1], 0.0), (xs_[0], 0.0)]
         P = np.array(pts, float)
     else:
-        k = int(rng.integers(8, 60))
+        # (size as an input class: contours of more than 4096, 8192 segments)
+        k = int(rng.integers(8, 60)) if shp != "star-long" else int(rng.choice([4098, 6000, 8193, 13000]))
         t = np.sort(rng.uniform(0, 2 * math.pi, k))
         r = 1 + 0.8 * rng.random(k) ** 2 * (rng.random(k) < 0.5) + 0.6 * np.sin(int(rng.integers(2, 6)) * t)
         r = np.maximum(r, 0.15)
